@@ -16,6 +16,7 @@ import (
 
 	"github.com/nspcc-dev/neo-go/pkg/config"
 	"github.com/nspcc-dev/neo-go/pkg/core"
+	"github.com/nspcc-dev/neo-go/pkg/core/mpt"
 	"github.com/nspcc-dev/neo-go/pkg/neorpc"
 	"github.com/nspcc-dev/neo-go/pkg/neorpc/result"
 	"github.com/nspcc-dev/neo-go/pkg/network"
@@ -149,6 +150,15 @@ func rpcChecks(o *hx.Out, k int, r *prng.R, bc *core.Blockchain, recs map[uint32
 		for i := 0; i < 3; i++ {
 			probe = append(probe, genKey(r, 0))
 		}
+		// the length limits: present keys of 63 / 64 bytes, an absent 64-byte key, a 65-byte key
+		nl := 0
+		for _, key := range present {
+			if len(key) >= 63 && nl < 2 {
+				probe = append(probe, key)
+				nl++
+			}
+		}
+		probe = append(probe, limitKey(64, 0x02, 0x02), limitKey(65, 0x01, 0x02, 0x10))
 		var lastProof *result.ProofWithKey
 		for _, key := range probe {
 			want, isPresent := rec.d[pre+string(key)]
@@ -170,6 +180,7 @@ func rpcChecks(o *hx.Out, k int, r *prng.R, bc *core.Blockchain, recs map[uint32
 				o.Fail("rpc-getstate", k, "height %d key %x: %s (%s), storage had %x present=%v", h, key, obs, e, want, isPresent)
 			}
 			o.Count("rpc:getstate")
+			o.Count("rpc:key-len:" + lenClass(key))
 			// getstoragehistoric by contract hash
 			raw, e = n.do("getstoragehistoric", root, hash.StringLE(), b64(key))
 			var hv []byte
@@ -284,6 +295,9 @@ func rpcChecks(o *hx.Out, k int, r *prng.R, bc *core.Blockchain, recs map[uint32
 				starts = append(starts, under[r.Intn(len(under))], under[len(under)-1])
 			}
 			starts = append(starts, append(bytes.Clone(p), 0x01, 0x11), append(bytes.Clone(p), 0xff), []byte{0x55})
+			if r.Chance(1, 3) {
+				starts = append(starts, append(bytes.Clone(p), bytes.Repeat([]byte{0x10}, 66-len(p))...)) // 66 bytes: over Trie.Find's limit
+			}
 			if len(p) > 0 {
 				starts = append(starts, bytes.Clone(p))
 			}
@@ -311,6 +325,8 @@ func rpcChecks(o *hx.Out, k int, r *prng.R, bc *core.Blockchain, recs map[uint32
 				switch {
 				case e == "panic":
 					obs = "panic"
+				case e == "err:-32603":
+					obs = "err:internal"
 				case e != "":
 					obs = "err:keyprefix"
 				case json.Unmarshal(raw, &fs) != nil:
@@ -345,9 +361,17 @@ func rpcChecks(o *hx.Out, k int, r *prng.R, bc *core.Blockchain, recs map[uint32
 					o.Fail("rpc-findstates-"+obs, k, "height %d prefix %x start %s count %d", h, p, keyTok, cnt)
 					continue
 				}
+				o.Count("rpc:findstates-prefix-len:" + lenClass(p))
 				if len(st) > 0 && !bytes.HasPrefix(st, p) {
 					if obs != "err:keyprefix" {
 						o.Fail("rpc-findstates-mismatch", k, "height %d prefix %x start %x does not extend the prefix but is accepted: %s", h, p, st, obs)
+					}
+					continue
+				}
+				if 4+len(p) > mpt.MaxKeyLength || (len(st) > 0 && bytes.HasPrefix(st, p) && len(st)-len(p) > mpt.MaxKeyLength-4-len(p)) {
+					// Trie.Find refuses the lengths (trie.go:592-597)
+					if obs != "err:internal" {
+						o.Fail("rpc-findstates-mismatch", k, "height %d prefix of %d bytes, start of %d bytes: %s, Trie.Find refuses these lengths", h, len(p), len(st), obs)
 					}
 					continue
 				}
